@@ -130,3 +130,41 @@ theorem C13_stale_refuted :
 example : hexStr 0xb4da55 = "b4da55" := by decide +kernel
 
 end Cellml.Props.C13
+
+namespace Cellml.Props.C13
+open Cellml.Annot
+
+/-- C13-3: `assignIds(type)` at any point of any history: every slot of the requested kind reached by the
+    traversal ends up with an identifier; identifiers that existed at the time of the call are unchanged; every
+    identifier assigned by the call occurs exactly once in the model afterwards; **slots of every other kind are
+    left exactly as they were** (also the empty ones). -/
+theorem C13_assignIds (sh : Shape) (ops : List Op) (kind : Nat) :
+    let s := run true sh init ops
+    let s' := (assignIds true sh s kind).1
+    s.hasModel = true →
+      (∀ i, i ∈ sh.visits → sh.kinds.getD i 0 = kind → i < s.ids.length → s'.ids.getD i "" ≠ "") ∧
+      (∀ j, s.ids.getD j "" ≠ "" → s'.ids.getD j "" = s.ids.getD j "") ∧
+      (∀ j, s.ids.getD j "" = "" → s'.ids.getD j "" ≠ "" → s'.ids.count (s'.ids.getD j "") = 1) ∧
+      (∀ j, sh.kinds.getD j 0 ≠ kind → s'.ids.getD j "" = s.ids.getD j "") ∧
+      s'.ids.length = s.ids.length := by
+  intro s s' hm
+  have hs : Sync s := C13_history_sync sh ops
+  have hu := update_fresh s hs hm
+  let vs := sh.visits.filter fun i => sh.kinds.getD i 0 = kind
+  have hv := visitAll_inv vs (update s) (update s) (visitInv_refl _ hu.1)
+  have hs' : s'.ids = (visitAll (update s) vs).ids := by
+    simp only [s', assignIds, hm, Bool.not_true, Bool.false_eq_true, if_false, if_true, setModel_ids, vs]
+  rw [hs']
+  refine ⟨?_, ?_, ?_, ?_, ?_⟩
+  · intro i hi hk hlt
+    exact visitAll_fills vs (update s) i (List.mem_filter.mpr ⟨hi, by simpa using hk⟩) (by rw [hu.2.2.1]; exact hlt)
+  · intro j hj
+    have := hv.old j (by rw [hu.2.2.1]; exact hj)
+    rw [hu.2.2.1] at this; exact this
+  · intro j hj0 hj
+    exact hv.uniq j (by rw [hu.2.2.1]; exact hj0) hj
+  · intro j hk
+    rw [visitAll_other vs (update s) j (fun hin => hk (by simpa using (List.mem_filter.mp hin).2)), hu.2.2.1]
+  · rw [hv.len, hu.2.2.1]
+
+end Cellml.Props.C13
